@@ -81,6 +81,7 @@ def items():
     requires wf(skel(*expression)),
     ensures erase(skel(r)) == erase(skel(*expression)),"""),
         Fn(TU, "can_hang_expression", mode="stub"),
+        Fn(TU, "join_trailing_trivia", mode="stub", proved_in="tok"),
         Raw(VALUE_SPEC, module="formatters::table"),
         Fn(TB, "take_singleline_trailing_comments", contract="""
     ensures skel(r.0) == skel(value),
@@ -157,6 +158,7 @@ pub open spec fn by_formatter<T, U: Fn(&Context, &T, TableType, Shape) -> (T, Ve
 """, step="proof { k = k + 1; }"),
             After("let (formatted_field, mut trailing_trivia) = formatter(&ctx, field, table_type, shape);", "proof { assert(by_formatter(formatter, ctx, *field, table_type, formatted_field)); }"),
             Between("if trailing_trivia\n            .iter()\n            .all(trivia_util::trivia_is_whitespace)", "                .collect();\n        }", "trailing_trivia = hole_vec_token();", why="iterator chains over the trailing trivia the formatter handed back (whitespace dropped, comments re-formatted): comment handling, see C03"),
+            Hole("symbol.trailing_trivia().cloned().collect(),", "hole_vec_token(),", why="iterator chain: the trailing trivia of the formatted comma; joined in front of the field's comments by join_trailing_trivia (verified in unit tok)"),
         ]),
         Fn(TB, "format_singleline_table", sig_edits=[Hole("T: std::fmt::Display,", "T: VNode,", kind="proxy", why="the Display bound is only used for a width; the proxy trait names the fields in the contract")], contract="""
     requires forall|i: int, s: Shape| 0 <= i < ppairs(*fields).len() ==> #[trigger] formatter.requires((ctx, &pair_value(ppairs(*fields)[i]), TableType::SingleLine, s)),
